@@ -102,8 +102,18 @@ class Mutator:
             u = np.random.rand(self.n_particles, self.n_dim)
             x = np.array([self.prior_transform(u[i]) for i in range(self.n_particles)])
             logl, blobs = self.log_likelihood(x)
+            n_drawn = self.n_particles
+            # Redraw while every draw fell in a zero-likelihood region, so that no
+            # -inf particle is ever stored; all draws count towards the supported fraction.
+            while np.all(np.isinf(logl)):
+                u = np.random.rand(self.n_particles, self.n_dim)
+                x = np.array(
+                    [self.prior_transform(u[i]) for i in range(self.n_particles)]
+                )
+                logl, blobs = self.log_likelihood(x)
+                n_drawn += self.n_particles
             assignments = np.zeros(self.n_particles, dtype=int)
-            calls = self.state.get_current("calls") + self.n_particles
+            calls = self.state.get_current("calls") + n_drawn
 
             self.state.update_current(
                 {
@@ -121,11 +131,11 @@ class Mutator:
 
             # Resample prior particles with infinite likelihoods
             inf_logl_mask = np.isinf(logl)
-            if np.any(inf_logl_mask):
+            if np.any(inf_logl_mask) or n_drawn > self.n_particles:
                 all_idx = np.arange(len(x))
                 infinite_idx = all_idx[inf_logl_mask]
                 finite_idx = all_idx[~inf_logl_mask]
-                if len(finite_idx) > 0:
+                if len(infinite_idx) > 0:
                     idx = np.random.choice(
                         finite_idx, size=len(infinite_idx), replace=True
                     )
@@ -143,7 +153,7 @@ class Mutator:
 
                 # Correct logZ for fraction of prior with finite likelihood support
                 n_finite = len(finite_idx)
-                n_total = len(logl)
+                n_total = n_drawn
                 logz = np.log(n_finite / n_total)
                 self.state.set_current("logz", logz)
             return
